@@ -21,9 +21,17 @@ def _unescape_quotes_and_backslashes(s):
 _UNQUOTED_PATH_STEP_RE = re.compile(r"^[a-zA-Z_][a-zA-Z0-9_]*\Z")
 
 
+# Words of the pattern language: as a path step they have to be quoted too
+_PATTERN_WORDS = frozenset([
+    "AND", "OR", "NOT", "FOLLOWEDBY", "LIKE", "MATCHES", "ISSUPERSET",
+    "ISSUBSET", "EXISTS", "LAST", "IN", "START", "STOP", "SECONDS", "WITHIN",
+    "REPEATS", "TIMES", "true", "false",
+])
+
+
 def quote_if_needed(x):
     if isinstance(x, str):
-        if not _UNQUOTED_PATH_STEP_RE.match(x):
+        if not _UNQUOTED_PATH_STEP_RE.match(x) or x in _PATTERN_WORDS:
             if not x.startswith("'"):
                 return "'" + escape_quotes_and_backslashes(x) + "'"
     return x
